@@ -396,11 +396,13 @@ pub fn gen_race(seed: u64, idx: u64) -> ThreadScenario {
         let mut ops = vec![Op::Iter { kind: IterKind::Find, q: q(t), limit: None }];
         for k in 0..r.range(3, 5) {
             let h = t + 1 + k;
-            ops.push(match r.below(6) {
+            ops.push(match r.below(8) {
                 0 => Op::Find(q(h)),
                 1 => Op::Iter { kind: if packed { IterKind::Find } else { IterKind::OverlappingIter }, q: q(h), limit: None },
                 2 => Op::WithClone(Box::new(Op::Iter { kind: IterKind::Find, q: q(h), limit: None })),
                 3 => Op::IsMatch(q(h)),
+                4 if !packed => Op::ReplaceAll { q: q(h), table: patterns.iter().map(|_| b"#".to_vec()).collect() },
+                5 if !packed => Op::ReplaceAllWith { q: q(h), table: patterns.iter().map(|_| b"<>".to_vec()).collect(), stop_after: None, nested: None },
                 _ => Op::Iter { kind: IterKind::Find, q: q(h), limit: None },
             });
         }
